@@ -25,11 +25,19 @@
 (* sample.makeDynsamplerKey computes on the tree this was written against: *)
 (* (prefix string, type, rate/goal, fields) -- tuning parameters and       *)
 (* UseClusterSize are missing, and the prefix of a downstream sampler of   *)
-(* destination d is the string "rules:d:", which a destination may be      *)
-(* named.  A Decide step in which a sampler receives an instance that was  *)
+(* destination d is the string "rules:d:", which another destination may   *)
+(* be named.  A Decide step in which a sampler receives an instance that was  *)
 (* created for a different definition is labelled dev |-> "key-collision"  *)
 (* and taints the run; the C12/C13 invariants are demanded of untainted    *)
 (* runs (all runs when Faithful = FALSE).                                  *)
+(*                                                                         *)
+(* Definitions are referred to by their index in sc.tab, the table of all  *)
+(* definitions [d |-> destination, p |-> position, l |-> leaf] of the two  *)
+(* files (p = 0: top level, p = i: downstream sampler of rule i).  An      *)
+(* instance (one dynsampler object) is named by the definition it was      *)
+(* created for and the registry epoch it was created in: within an epoch   *)
+(* the registry creates at most one instance per key and a key has one     *)
+(* creator.                                                                *)
 (*                                                                         *)
 (* ShareIdentical: C12 says two definitions of one destination share state *)
 (* only if their configurations are identical, not that they must.  TRUE:  *)
@@ -43,9 +51,10 @@ CONSTANTS NW,             \* number of collector workers (1..3)
           PeerCounts,     \* cluster sizes a membership change can produce
           MaxChanges,     \* bound on configuration changes in one run
           Faithful,       \* registry key: FALSE ideal, TRUE as makeDynsamplerKey
-          ShareIdentical  \* see above
+          ShareIdentical, \* see above
+          CachedDecide    \* include the (stuttering) decisions that hit a worker's cache
 
-VARIABLES sc,        \* the scenario [a |-> file, b |-> file]; never changes
+VARIABLES sc,        \* the scenario [i, a |-> file, b |-> file, tab |-> its definitions]; never changes
           nchg,      \* configuration changes so far (file a is loaded iff even)
           reloadSig, \* InMemCollector.reload holds a signal (capacity 1)
           toSignal,  \* reloadConfigs loop: 0 idle, i = about to signal worker i
@@ -65,8 +74,8 @@ vars == <<sc, nchg, reloadSig, toSignal, pending, local, reg, epoch, peers, peer
 WSeq == SubSeq(<<"w1", "w2", "w3">>, 1, NW)
 Workers == {WSeq[i] : i \in 1..NW}
 
-Max(x, y) == IF x >= y THEN x ELSE y
-Min(S) == CHOOSE x \in S : \A y \in S : x <= y
+Max2(x, y) == IF x >= y THEN x ELSE y
+MinOf(S) == CHOOSE x \in S : \A y \in S : x <= y
 
 ---------------------------------------------------------------------------
 (* Scenarios *)
@@ -92,52 +101,61 @@ Vary(l, v) == CASE v = 0 -> l
                 [] v = 4 -> [l EXCEPT !.f = "g"]
                 [] v = 5 -> [l EXCEPT !.g = IF l.g = 2 THEN 10 ELSE 2]
 
+\* the names of the destinations and the prefix strings GetDownstreamSampler derives
+\* from them ("rules:<name>:")
+Plain == [names |-> [e1 |-> "e1", e2 |-> "e2"], rpfx |-> [e1 |-> "rules:e1:", e2 |-> "rules:e2:"]]
+
 \* e1 has two rules whose downstream samplers differ by variation v; e2 has the
 \* base definition at top level; after a configuration change the roles swap
 PairScenario(l, v) ==
   [a |-> [e1 |-> R2(l, Vary(l, v)), e2 |-> Top(l)],
-   b |-> [e1 |-> Top(Vary(l, v)),   e2 |-> R2(Vary(l, v), l)]]
+   b |-> [e1 |-> Top(Vary(l, v)),   e2 |-> R2(Vary(l, v), l)]] @@ Plain
 
 \* mixtures of samplers with and without UseClusterSize
 MixByDest(t, g) ==
   [a |-> [e1 |-> Top(Leaf(t, g, TRUE, 0, "f")),  e2 |-> Top(Leaf(t, g, FALSE, 0, "f"))],
-   b |-> [e1 |-> Top(Leaf(t, g, FALSE, 0, "f")), e2 |-> Default]]
+   b |-> [e1 |-> Top(Leaf(t, g, FALSE, 0, "f")), e2 |-> Default]] @@ Plain
 MixByRule(t, g) ==   \* distinct field lists: no key collision even with the short key
   [a |-> [e1 |-> R2(Leaf(t, g, TRUE, 0, "f"), Leaf(t, g, FALSE, 0, "g")), e2 |-> Det(2)],
-   b |-> [e1 |-> R2(Leaf(t, g, FALSE, 0, "f"), Leaf(t, g, TRUE, 0, "g")), e2 |-> Det(2)]]
+   b |-> [e1 |-> R2(Leaf(t, g, FALSE, 0, "f"), Leaf(t, g, TRUE, 0, "g")), e2 |-> Det(2)]] @@ Plain
 MixCollide(t, g) ==  \* the two rules differ in UseClusterSize only
   [a |-> [e1 |-> R2(Leaf(t, g, TRUE, 0, "f"), Leaf(t, g, FALSE, 0, "f")), e2 |-> Default],
-   b |-> [e1 |-> R2(Leaf(t, g, FALSE, 0, "f"), Leaf(t, g, TRUE, 0, "f")), e2 |-> Default]]
+   b |-> [e1 |-> R2(Leaf(t, g, FALSE, 0, "f"), Leaf(t, g, TRUE, 0, "f")), e2 |-> Default]] @@ Plain
 
-\* a destination that is literally named like the downstream prefix of e1
+\* destinations with a deterministic sampler (no dynsampler) or absent from the file
+\* (validation does not accept a deterministic sampler below a rule)
+DetScenario ==
+  [a |-> [e1 |-> Det(10), e2 |-> Top(Leaf("tt", 10, TRUE, 0, "f"))],
+   b |-> [e1 |-> Default, e2 |-> Det(2)]] @@ Plain
+
+\* the second destination is literally named like the downstream prefix of the first
 AliasScenario(t) ==
-  [a |-> [e1 |-> R1(Leaf(t, 10, FALSE, 0, "f")), alias |-> Top(Leaf(t, 10, FALSE, 0, "f"))],
-   b |-> [e1 |-> Top(Leaf(t, 10, FALSE, 0, "f")), alias |-> Top(Leaf(t, 10, FALSE, 0, "f"))]]
+  [a |-> [e1 |-> R1(Leaf(t, 10, FALSE, 0, "f")), e2 |-> Top(Leaf(t, 10, FALSE, 0, "f"))],
+   b |-> [e1 |-> Top(Leaf(t, 10, FALSE, 0, "f")), e2 |-> Top(Leaf(t, 10, FALSE, 0, "f"))],
+   names |-> [e1 |-> "e1", e2 |-> "rules:e1:"],
+   rpfx  |-> [e1 |-> "rules:e1:", e2 |-> "rules:rules:e1::"]]
 
 Base(t) == Leaf(t, 10, FALSE, 0, "f")
 
 Scenarios ==
   CASE Family = "c12-quick" ->
-         {PairScenario(Base("tt"), v) : v \in {0, 1, 3}}
-         \cup {PairScenario(Base("dy"), v) : v \in {2, 4}}
-         \cup {PairScenario(Base("ed"), 1), PairScenario(Base("wt"), 2), PairScenario(Base("et"), 5)}
+         {PairScenario(Base("tt"), 1), PairScenario(Base("wt"), 3), PairScenario(Base("ed"), 4),
+          AliasScenario("dy")}
     [] Family = "c12-full" ->
          {PairScenario(Base(t), v) : t \in TputTypes, v \in 0..5}
          \cup {PairScenario(Base(t), v) : t \in DynTypes, v \in {0, 1, 2, 4, 5}}
-         \cup {PairScenario(Leaf("de", 10, FALSE, 0, "f"), 5)}
-    [] Family = "c12-alias" ->
-         {AliasScenario(t) : t \in {"tt", "dy"}}
+         \cup {DetScenario}
+         \cup {AliasScenario(t) : t \in {"tt", "dy", "wt"}}
     [] Family = "c13-quick" ->
-         {MixByDest("tt", 10), MixByDest("et", 1), MixByRule("wt", 2), MixByRule("tt", 1),
-          MixCollide("et", 10), MixCollide("wt", 2)}
+         {MixByDest("tt", 1), MixByRule("wt", 2), MixCollide("et", 10)}
     [] Family = "c13-full" ->
          {MixByDest(t, g) : t \in TputTypes, g \in {1, 2, 10}}
          \cup {MixByRule(t, g) : t \in TputTypes, g \in {1, 2, 10}}
          \cup {MixCollide(t, g) : t \in TputTypes, g \in {1, 2, 10}}
     [] Family = "collect" ->
-         {PairScenario(Base("tt"), 1), PairScenario(Base("dy"), 0), MixCollide("et", 10), MixByDest("wt", 2)}
+         {PairScenario(Base("tt"), 1), MixCollide("et", 10), MixByDest("wt", 2)}
 
-DSeq == IF Family = "c12-alias" THEN <<"alias", "e1">> ELSE <<"e1", "e2">>
+DSeq == <<"e1", "e2">>
 ND == Len(DSeq)
 Dests == {DSeq[i] : i \in 1..ND}
 ML == 2     \* most leaves below one destination
@@ -145,37 +163,37 @@ ML == 2     \* most leaves below one destination
 File == IF nchg % 2 = 0 THEN sc.a ELSE sc.b
 
 ---------------------------------------------------------------------------
-(* Registry keys *)
+(* Definitions and registry keys *)
+
+Def(d, p, l) == [d |-> d, p |-> p, l |-> l]
+Tab == sc.tab
+NDef == Len(Tab)
 
 \* the prefix string createSampler receives: the destination itself for a top-level
 \* sampler, "rules:<dest>:" for the downstream samplers of its rules
-RulesPrefix == [e1 |-> "rules:e1:", e2 |-> "rules:e2:", alias |-> "rules:rules:e1::"]
-DestString  == [e1 |-> "e1", e2 |-> "e2", alias |-> "rules:e1:"]
-Prefix(d, p) == IF p = 0 THEN DestString[d] ELSE RulesPrefix[d]
+Prefix(x) == IF x.p = 0 THEN sc.names[x.d] ELSE sc.rpfx[x.d]
 
-\* the definition: destination, position (0 = top level, i = rule i) and the whole leaf
-Def(d, p, l) == [d |-> d, p |-> p, l |-> l]
+IdealKey(x) == IF ShareIdentical THEN [d |-> x.d, p |-> IF x.p = 0 THEN 0 ELSE 1, l |-> x.l]
+                                 ELSE [d |-> x.d, p |-> x.p, l |-> x.l]
+ShortKey(x) == [pfx |-> Prefix(x), t |-> x.l.t, g |-> x.l.g, f |-> x.l.f]
+RegKey(x)   == IF Faithful THEN ShortKey(x) ELSE IdealKey(x)
 
-IdealKey(d, p, l) == IF ShareIdentical THEN [d |-> d, p |-> IF p = 0 THEN 0 ELSE 1, l |-> l]
-                                       ELSE [d |-> d, p |-> p, l |-> l]
-ShortKey(d, p, l) == [pfx |-> Prefix(d, p), t |-> l.t, g |-> l.g, f |-> l.f]
-RegKey(d, p, l)   == IF Faithful THEN ShortKey(d, p, l) ELSE IdealKey(d, p, l)
+\* a definition is identified with the first entry of the table that the property
+\* allows it to share an instance with (itself, unless ShareIdentical merges rules)
+Canon(x) == MinOf({i \in 1..NDef : IdealKey(Tab[i]) = IdealKey(x)})
 
-\* two definitions that the property allows to share one instance
-MayShare(x, y) == IdealKey(x.d, x.p, x.l) = IdealKey(y.d, y.p, y.l)
-
-NoInst == [none |-> TRUE]
-
-Lookup(r, k) == {e \in r : e.k = k}
-
-Expected(l, n) == IF l.u THEN Max(1, l.g \div n) ELSE l.g
+Expected(l, n) == IF l.u THEN Max2(1, l.g \div n) ELSE l.g
 
 \* updatePeerCounts: every registered throughput instance with an entry in
 \* goalThroughputConfigs gets max(cfg / peerCount, 1)
-Rescale(r, n) == {IF e.scaled THEN [e EXCEPT !.goal = Max(1, e.cfg \div n)] ELSE e : e \in r}
+Rescale(r, n) == {IF e.scaled THEN [e EXCEPT !.goal = Max2(1, Tab[e.cr].l.g \div n)] ELSE e : e \in r}
 
 ---------------------------------------------------------------------------
 (* createSampler for the leaves of one destination, in rule order.         *)
+(* A registry entry is [cr |-> creator, scaled |-> the key is in           *)
+(* goalThroughputConfigs, goal |-> GoalThroughputPerSec of the instance];  *)
+(* a slot (one leaf sampler object held by a worker) is [l |-> its own     *)
+(* definition, cr, ep |-> the instance behind it (cr = 0: none)].          *)
 (* Build returns [r |-> registry, s |-> slots, dev |-> BOOLEAN].           *)
 
 RECURSIVE Build(_, _, _, _)
@@ -183,27 +201,25 @@ Build(d, top, i, accu) ==
   IF i > Len(top.leaves) THEN accu
   ELSE
     LET l == top.leaves[i]
-        p == IF top.rules THEN i ELSE 0
-        me == Def(d, p, l)
+        x == Def(d, IF top.rules THEN i ELSE 0, l)
+        me == Canon(x)
     IN IF ~HasDyn(l.t)
-       THEN Build(d, top, i + 1, [accu EXCEPT !.s = Append(@, [l |-> l, inst |-> NoInst])])
+       THEN Build(d, top, i + 1, [accu EXCEPT !.s = Append(@, [l |-> me, cr |-> 0, ep |-> 0])])
        ELSE
-         LET k == RegKey(d, p, l)
-             hit == Lookup(accu.r, k)
+         LET hit == {e \in accu.r : RegKey(Tab[e.cr]) = RegKey(x)}
          IN IF hit # {}
-            THEN LET e == CHOOSE x \in hit : TRUE
+            THEN LET e == CHOOSE y \in hit : TRUE
                      \* goalThroughputConfigs[key] = goal whenever the definition has UseClusterSize
-                     e2 == IF IsTput(l.t) /\ l.u THEN [e EXCEPT !.scaled = TRUE, !.cfg = l.g] ELSE e
+                     e2 == IF IsTput(l.t) /\ l.u THEN [e EXCEPT !.scaled = TRUE] ELSE e
                  IN Build(d, top, i + 1,
                           [r |-> (accu.r \ {e}) \cup {e2},
-                           s |-> Append(accu.s, [l |-> l, inst |-> [k |-> k, ep |-> e.ep]]),
-                           dev |-> accu.dev \/ ~MayShare(e.cr, me)])
-            ELSE LET e == [k |-> k, cr |-> me, ep |-> epoch,
-                           scaled |-> IsTput(l.t) /\ l.u, cfg |-> l.g,
+                           s |-> Append(accu.s, [l |-> me, cr |-> e.cr, ep |-> epoch]),
+                           dev |-> accu.dev \/ e.cr # me])
+            ELSE LET e == [cr |-> me, scaled |-> IsTput(l.t) /\ l.u,
                            goal |-> IF IsTput(l.t) THEN l.g ELSE 0]
                  IN Build(d, top, i + 1,
                           [r |-> accu.r \cup {e},
-                           s |-> Append(accu.s, [l |-> l, inst |-> [k |-> k, ep |-> epoch]]),
+                           s |-> Append(accu.s, [l |-> me, cr |-> me, ep |-> epoch]),
                            dev |-> accu.dev])
 
 ---------------------------------------------------------------------------
@@ -211,7 +227,14 @@ Build(d, top, i, accu) ==
 
 Uncached == [c |-> FALSE, s |-> <<>>]
 
-Init == /\ sc \in Scenarios
+ScenarioSeq == SetToSeq(Scenarios)
+FileDefSet(file) == {Def(y[1], IF file[y[1]].rules THEN y[2] ELSE 0, file[y[1]].leaves[y[2]]) :
+                       y \in {z \in Dests \X (1..ML) : z[2] <= Len(file[z[1]].leaves)}}
+FullScenario(i) == [i |-> i, a |-> ScenarioSeq[i].a, b |-> ScenarioSeq[i].b,
+                    names |-> ScenarioSeq[i].names, rpfx |-> ScenarioSeq[i].rpfx,
+                    tab |-> SetToSeq(FileDefSet(ScenarioSeq[i].a) \cup FileDefSet(ScenarioSeq[i].b))]
+
+Init == /\ sc \in {FullScenario(i) : i \in 1..Len(ScenarioSeq)}
         /\ nchg = 0 /\ reloadSig = FALSE /\ toSignal = 0
         /\ pending = [w \in Workers |-> FALSE]
         /\ local = [w \in Workers |-> [d \in Dests |-> Uncached]]
@@ -226,7 +249,8 @@ Init == /\ sc \in Scenarios
 \* the unique_dynsampler_count gauge.
 Decide(w, d) ==
   IF local[w][d].c
-  THEN /\ UNCHANGED <<sc, nchg, reloadSig, toSignal, pending, local, reg, epoch, peers, peerCount, cbPending, gauge, tainted>>
+  THEN /\ CachedDecide
+       /\ UNCHANGED <<sc, nchg, reloadSig, toSignal, pending, local, reg, epoch, peers, peerCount, cbPending, gauge, tainted>>
        /\ act' = [name |-> "Decide", w |-> w, d |-> d]
   ELSE LET b == Build(d, File[d], 1, [r |-> reg, s |-> <<>>, dev |-> FALSE])
        IN /\ local' = [local EXCEPT ![w][d] = [c |-> TRUE, s |-> b.s]]
@@ -314,8 +338,12 @@ TypeOK ==
        /\ local[w][d].c \in BOOLEAN
        /\ Len(local[w][d].s) <= ML
        /\ ~local[w][d].c => local[w][d].s = <<>>
-  /\ \A e \in reg : e.ep = epoch /\ e.goal >= 0 /\ Cardinality(Lookup(reg, e.k)) = 1
-  /\ gauge \in 0..(2 * ND * ML)
+       /\ \A i \in 1..Len(local[w][d].s) :
+            LET s == local[w][d].s[i]
+            IN s.l \in 1..NDef /\ s.cr \in 0..NDef /\ s.ep \in 0..epoch /\ Tab[s.l].d = d
+  /\ \A e \in reg : e.cr \in 1..NDef /\ e.goal >= 0
+  /\ \A e1, e2 \in reg : e1.cr = e2.cr => e1 = e2
+  /\ gauge \in 0..NDef
   /\ (tainted => Faithful)
 
 Quiescent == ~reloadSig /\ toSignal = 0 /\ ~cbPending /\ \A w \in Workers : ~pending[w]
@@ -323,10 +351,11 @@ Quiescent == ~reloadSig /\ toSignal = 0 /\ ~cbPending /\ \A w \in Workers : ~pen
 \* all cached slots
 SlotSet == {x \in [w : Workers, d : Dests, i : 1..ML] : local[x.w][x.d].c /\ x.i <= Len(local[x.w][x.d].s)}
 SlotOf(x) == local[x.w][x.d].s[x.i]
-PosOf(x)  == IF File[x.d].rules THEN x.i ELSE 0
-
-Live(inst) == inst # NoInst /\ \E e \in reg : e.k = inst.k /\ e.ep = inst.ep
-EntryOf(inst) == CHOOSE e \in reg : e.k = inst.k /\ e.ep = inst.ep
+LeafOf(s) == Tab[s.l].l
+HasInst(s) == s.cr # 0
+SameInst(s, t) == HasInst(s) /\ s.cr = t.cr /\ s.ep = t.ep
+Live(s) == HasInst(s) /\ s.ep = epoch /\ \E e \in reg : e.cr = s.cr
+EntryOf(s) == CHOOSE e \in reg : e.cr = s.cr
 
 \* C12 (1): with no reload in flight every worker holds, for a destination, samplers
 \* built from the file in force and backed by the same live instances
@@ -335,36 +364,35 @@ WorkersShare ==
     /\ \A w1, w2 \in Workers, d \in Dests :
          (local[w1][d].c /\ local[w2][d].c) => local[w1][d].s = local[w2][d].s
     /\ \A x \in SlotSet :
-         /\ SlotOf(x).l = File[x.d].leaves[x.i]
-         /\ HasDyn(SlotOf(x).l.t) => Live(SlotOf(x).inst)
+         /\ LeafOf(SlotOf(x)) = File[x.d].leaves[x.i]
+         /\ HasDyn(LeafOf(SlotOf(x)).t) => Live(SlotOf(x))
 
 \* C12 (2): state is never shared between destinations (at any time)
 DestsIsolated ==
-  ~tainted => \A x, y \in SlotSet :
-     (SlotOf(x).inst # NoInst /\ SlotOf(x).inst = SlotOf(y).inst) => x.d = y.d
+  ~tainted => \A x, y \in SlotSet : SameInst(SlotOf(x), SlotOf(y)) => x.d = y.d
 
 \* C12 (3): within a destination two samplers share state only if their entire
 \* configurations are identical (at any time)
 DefsIsolated ==
   ~tainted => \A x, y \in SlotSet :
-     (SlotOf(x).inst # NoInst /\ SlotOf(x).inst = SlotOf(y).inst) => SlotOf(x).l = SlotOf(y).l
+     SameInst(SlotOf(x), SlotOf(y)) => LeafOf(SlotOf(x)) = LeafOf(SlotOf(y))
 
 \* C13: with no callback outstanding every live throughput instance has the goal of
 \* the definition it was created for, scaled by the true cluster size iff UseClusterSize
 RegistryGoals ==
   (~cbPending /\ ~tainted) =>
-    \A e \in reg : IsTput(e.cr.l.t) => e.goal = Expected(e.cr.l, peers)
+    \A e \in reg : IsTput(Tab[e.cr].l.t) => e.goal = Expected(Tab[e.cr].l, peers)
 
 \* C13 as seen by the workers: at quiescence the sampler a worker would use for a trace
 \* runs with the goal of its own definition
 WorkerGoals ==
   (Quiescent /\ ~tainted) =>
-    \A x \in SlotSet : IsTput(SlotOf(x).l.t) =>
-        /\ Live(SlotOf(x).inst)
-        /\ EntryOf(SlotOf(x).inst).goal = Expected(SlotOf(x).l, peers)
+    \A x \in SlotSet : IsTput(LeafOf(SlotOf(x)).t) =>
+        /\ Live(SlotOf(x))
+        /\ EntryOf(SlotOf(x)).goal = Expected(LeafOf(SlotOf(x)), peers)
 
 \* the factory's cached peer count is the true one whenever no callback is outstanding
-\* and at least one sampler was created
+\* and at least one sampler was created since the last change
 PeerCountCurrent == (~cbPending /\ reg # {}) => peerCount = peers
 
 \* a worker's sampler for a destination changes only when the worker handles a reload
@@ -374,73 +402,40 @@ CacheStable ==
 
 \* instances are only ever dropped from the registry by ClearDynsamplers
 RegistryMonotone ==
-  [][(\E e \in reg : Lookup(reg', e.k) = {}) => act'.name = "MonitorClear"]_vars
+  [][(\E e \in reg : \A f \in reg' : f.cr # e.cr) => act'.name = "MonitorClear"]_vars
 
 \* sanity of the deviation: the short key really produces what C12 forbids
-\* (checked to FAIL with Faithful = TRUE in MC_Samplers_bites.cfg)
+\* (expected to FAIL with Faithful = TRUE, see MC_Samplers_bites.cfg)
 NeverTainted == ~tainted
 
 ---------------------------------------------------------------------------
-(* Projection compared with the real objects.  Instances are numbered in    *)
-(* order of first appearance over (worker, destination, slot).              *)
+(* Projection compared with the real objects: for every sampler a worker    *)
+(* holds, the instance behind it (named as explained at the top; the        *)
+(* harness names a dynsampler pointer by the slot in which it first saw it) *)
+(* whether that instance is still registered, and its GoalThroughputPerSec  *)
+(* (0: not a throughput sampler, -1: instance no longer registered).        *)
 
-Pos == [w : 1..NW, d : 1..ND, i : 1..ML]
-Ord(p) == ((p.w - 1) * ND + (p.d - 1)) * ML + p.i
-InstAt(p) == LET c == local[WSeq[p.w]][DSeq[p.d]]
-             IN IF c.c /\ p.i <= Len(c.s) THEN c.s[p.i].inst ELSE NoInst
-IdOf(p) == IF InstAt(p) = NoInst THEN 0
-           ELSE LET first == Min({Ord(q) : q \in {q \in Pos : InstAt(q) = InstAt(p)}})
-                IN Cardinality({InstAt(q) : q \in {q \in Pos : Ord(q) <= first}} \ {NoInst})
-GoalOf(l, inst) == IF inst = NoInst \/ ~IsTput(l.t) THEN 0
-                   ELSE IF Live(inst) THEN EntryOf(inst).goal ELSE -1
+SlotView(s) == [cr |-> s.cr, ep |-> s.ep, live |-> Live(s),
+                goal |-> IF ~HasInst(s) \/ ~IsTput(LeafOf(s).t) THEN 0
+                         ELSE IF Live(s) THEN EntryOf(s).goal ELSE -1]
 
-SlotView(w, d, i) ==
-  LET s == local[WSeq[w]][DSeq[d]].s[i]
-  IN [id   |-> IdOf([w |-> w, d |-> d, i |-> i]),
-      live |-> Live(s.inst),
-      goal |-> GoalOf(s.l, s.inst)]
-
-Abs == [ local  |-> [w \in Workers |->
-                       [d \in Dests |->
-                          LET wi == CHOOSE i \in 1..NW : WSeq[i] = w
-                              di == CHOOSE i \in 1..ND : DSeq[i] = d
-                          IN [c |-> local[w][d].c,
-                              s |-> [i \in 1..Len(local[w][d].s) |-> SlotView(wi, di, i)]]]],
+Abs == [ local  |-> [w \in Workers |-> [d \in Dests |->
+                       [c |-> local[w][d].c,
+                        s |-> [i \in 1..Len(local[w][d].s) |-> SlotView(local[w][d].s[i])]]]],
          unique |-> gauge ]
 
----------------------------------------------------------------------------
-(* Edge dump for the conformance replay.  The hidden part of a state is    *)
-(* written compactly: the scenario by its index in ScenarioSeq (the table  *)
-(* is printed once as `params`), definitions and registry keys by their    *)
-(* index in the scenario's table of definitions.                           *)
-
-ScenarioSeq == SetToSeq(Scenarios)
-Sci == CHOOSE i \in 1..Len(ScenarioSeq) : ScenarioSeq[i] = sc
-
-FileDefSet(file) == {Def(d, IF file[d].rules THEN i ELSE 0, file[d].leaves[i]) :
-                       <<d, i>> \in {x \in Dests \X (1..ML) : x[2] <= Len(file[x[1]].leaves)}}
-DefTabs == [i \in 1..Len(ScenarioSeq) |->
-              SetToSeq(FileDefSet(ScenarioSeq[i].a) \cup FileDefSet(ScenarioSeq[i].b))]
-DefTab == DefTabs[Sci]
-DefId(x) == CHOOSE i \in 1..Len(DefTab) : DefTab[i] = x
-KeyId(k) == Min({i \in 1..Len(DefTab) : RegKey(DefTab[i].d, DefTab[i].p, DefTab[i].l) = k})
+\* hidden part of the state (a graph node is Abs + Hid)
 B(x) == IF x THEN 1 ELSE 0
-
-\* a slot: <<leaf (as the definition it has in file a or b), key, epoch>>
-LeafId(d, l) == Min({i \in 1..Len(DefTab) : DefTab[i].d = d /\ DefTab[i].l = l})
-SlotCode(d, s) == IF s.inst = NoInst THEN <<LeafId(d, s.l), 0, 0>>
-                  ELSE <<LeafId(d, s.l), KeyId(s.inst.k), s.inst.ep>>
-
-Hid == [ sci  |-> Sci, nchg |-> nchg, rs |-> B(reloadSig), ts |-> toSignal,
+Hid == [ sci  |-> sc.i, nchg |-> nchg, rs |-> B(reloadSig), ts |-> toSignal,
          pend |-> [i \in 1..NW |-> B(pending[WSeq[i]])],
-         loc  |-> [i \in 1..NW |-> [j \in 1..ND |->
-                     LET c == local[WSeq[i]][DSeq[j]]
-                     IN [x \in 1..Len(c.s) |-> SlotCode(DSeq[j], c.s[x])]]],
-         reg  |-> {<<KeyId(e.k), DefId(e.cr), B(e.scaled), e.cfg, e.goal>> : e \in reg},
+         own  |-> [i \in 1..NW |-> [j \in 1..ND |->
+                     LET c == local[WSeq[i]][DSeq[j]] IN [x \in 1..Len(c.s) |-> c.s[x].l]]],
+         reg  |-> {<<e.cr, B(e.scaled), e.goal>> : e \in reg},
          ep   |-> epoch, peers |-> peers, pc |-> peerCount, cb |-> B(cbPending), tn |-> B(tainted) ]
 
-Params == [ workers |-> WSeq, dests |-> DSeq, destNames |-> [d \in Dests |-> DestString[d]],
-            scenarios |-> ScenarioSeq, faithful |-> Faithful, shareIdentical |-> ShareIdentical ]
+Params == [ workers |-> WSeq, dests |-> DSeq,
+            scenarios |-> [i \in 1..Len(ScenarioSeq) |-> FullScenario(i)],
+            faithful |-> Faithful, shareIdentical |-> ShareIdentical ]
 ASSUME PrintT(ToJson([params |-> Params]))
 Dump == PrintT(ToJson([fa |-> act.name, act |-> act', fabs |-> Abs, fhid |-> Hid, tabs |-> Abs', thid |-> Hid']))
 View == <<sc, nchg, reloadSig, toSignal, pending, local, reg, epoch, peers, peerCount, cbPending, gauge, tainted>>
